@@ -199,6 +199,7 @@ func checkPerKey(step func(st, in, out any) (bool, any), init func(key int) any,
 //     only if no mutating call on k overlaps the interval (then k's state is
 //     constant throughout: "visits every key present and untouched for the
 //     whole call"); touched keys may be visited or not.
+//
 // It also reports a key visited twice by one Range.
 func mapHistoryOps(h []rec, universe []int) (byKey map[int][]porcupine.Operation, dupKey string, nVisit, nMiss int) {
 	byKey = map[int][]porcupine.Operation{}
